@@ -8,8 +8,8 @@ CONSTANTS
   Acts = {"Scrape", "Exemplar", "Meta", "Delete", "Evict", "Truncate", "Restart"}
   Script <- NoScript
   PreCuts = {0, 3}
-  MetaOrds = {"asc", "desc"}
+  MetaOrds = {"stream"}
   EmitMode = "none"
 VIEW View
-INVARIANTS TypeOK RefClosedOrKF ReplayEquivOrKF NoLiveOrphan SamplesSurvive
+INVARIANTS TypeOK RefClosedOrKF ReplayEquivOrKF NoLiveOrphan SamplesSurvive NoRefReuse
 CHECK_DEADLOCK FALSE
